@@ -205,12 +205,12 @@ TTranspose == /\ IsEvent("transpose") /\ UNCHANGED spVars /\ UNCHANGED snap0
 \* pairs = what concat returned, same = concat's document has the same snapshot as the import of the joined text,
 \* exports[i] = dumps(concat document, from_measure = pairs[i][1], to_measure = pairs[i][2])
 ConcatChecks(e) ==
-  LET n == Len(e.ends)  want == ConcatPairs(e.ends) IN
+  LET n == Len(e.ends)  want == ConcatPairsIn(e.mst, e.ends) IN            \* e.mst: the measure index the implementation reports
   << <<"concat.same_document_as_joined_import", e.same>>,
      <<"concat.one_pair_per_fragment", Len(e.pairs) = n>>,
      <<"concat.pairs", e.pairs = want>>,
      <<"concat.consecutive", \A i \in 1..(Len(e.pairs) - 1) : e.pairs[i + 1][1] = e.pairs[i][2] + 1>>,
-     <<"concat.last_is_measure_count", Len(e.pairs) > 0 => e.pairs[Len(e.pairs)][2] = M>>,
+     <<"concat.last_is_measure_count", Len(e.pairs) > 0 => e.pairs[Len(e.pairs)][2] = Len(e.mst)>>,
      \* relative to the full export: judged when the full export (e.base) is what the specification says
      <<"concat.pair_addresses_fragment", ("base" \in DOMAIN e /\ ~BaseOK(e.base)) \/ (Len(e.exports) = n /\ \A i \in 1..n :
           e.exports[i].ok /\ DataLines(e.exports[i].grid) = FragmentDataLines(e.ends, i, DefaultOpts))>> >>
